@@ -34,3 +34,13 @@ func verifFuncID(f any) int
 
 // verifIsEngine is true under the symbolic executor, false natively.
 func verifIsEngine() bool
+
+// verifFreeze(root) ... verifThaw(): between the two, any store into memory
+// reachable from root is a violation of kind "write" (engine only; natively
+// such findings are confirmed under the race detector, see vhQuery).
+func verifFreeze(root any)
+func verifThaw()
+
+// vhQuery runs a query; natively under the race detector it is run from two
+// goroutines at once (rt_native.go).
+func vhQuery(f func() []any) []any { return f() }
